@@ -1,6 +1,6 @@
 import importlib
 
-MODULES = ['traversal', 'equality', 'payload', 'locks']
+MODULES = ['traversal', 'equality', 'payload', 'locks', 'registry_cxx']
 
 
 def load_all():
